@@ -149,7 +149,7 @@ def run(ctx):
     firsts = firsts[: (60 if quick else 600)]
     step_ops = []
     for tok, k1, a1, _ in firsts:
-        name2 = rng.choice(names)
+        name2 = rng.choice([n for n in names if G.algs_for(n, pool[n])])
         k2 = pool[name2]
         a2 = rng.choice(G.algs_for(name2, k2))
         step_ops.append(("jws.sig", {"jws": tok, "sig": {"protected": {"alg": a2}}, "jwk": k2, "rnd": [rng.randbytes(32).hex()],
